@@ -88,8 +88,41 @@ def run(ctx):
 
     # ---- 4. readKillPreferenceAt: prefer probed before avoid, prefer wins
     rk = ctx.fn1("Oomd::Fs::readKillPreferenceAt")
+    table_form = False
+    if loops(rk):
+        # table-driven form: for (auto& [attr, pref] : TABLE) { probe(attr); if (found) return pref; }
+        table_form = True
+        entries = None
+        for rf in rk.all("rangefor"):
+            rng = rk.nodes[rk.strip(rk.nodes[rf]["range"])]
+            if rng["k"] == "ref" and rng.get("decl"):
+                _, v = rk.vardecl(rng["decl"])
+                if v is not None and "init" in v:
+                    il = rk.nodes[rk.strip(v["init"])]
+                    if il["k"] == "initlist":
+                        entries = [rk.text(x) for x in il.get("kids", [])]
+        if not entries:
+            ctx.broken("readKillPreferenceAt:shape", "path-enumeration", rk.loc(),
+                       "readKillPreferenceAt contains a loop whose probe table could not be read")
+        else:
+            kinds = []
+            for e_ in entries:
+                m = re.search(r"kOomd(System|User)(Prefer|Avoid)XAttr.*KillPreference::(\w+)", e_)
+                kinds.append((m.group(2).lower(), m.group(3)) if m else ("?", "?"))
+            ok_tab = len(kinds) == 4 and all(k != "?" for k, _ in kinds) and \
+                all((k == "prefer") == (r == "PREFER") and (k == "avoid") == (r == "AVOID") for k, r in kinds)
+            first_avoid = next((i for i, (k, _) in enumerate(kinds) if k == "avoid"), len(kinds))
+            order_ok = all(k != "prefer" for k, _ in kinds[first_avoid:])
+            ctx.check(ok_tab and order_ok, "readKillPreferenceAt:prefer-before-avoid", "probe-table-order", rk.loc(),
+                      "probe table lists both prefer attributes before any avoid attribute: " + str(kinds),
+                      "probe table order lets an avoid mark win over a prefer mark (first match decides): " + str(kinds))
+            # loop returns the entry's preference on the first found attribute, NORMAL afterwards
+            fl_ = Flow(P, rk, cg=ctx.cg)
+            good = any(has_fact(fl_.guards(r), True, "*maybe") and "NORMAL" not in ret_text(rk, r) for r in returns(rk))
+            ctx.check(good, "readKillPreferenceAt:first-match-returns", "return_table", rk.loc(),
+                      "the first attribute found decides", "no return on the found edge inside the probe loop")
     try:
-        paths, _ = enumerate_paths(P, rk, cg=ctx.cg)
+        paths, _ = enumerate_paths(P, rk, cg=ctx.cg) if not table_form else (None, None)
     except ValueError as ex:
         paths = None
         ctx.broken("readKillPreferenceAt-paths", "path-enumeration", rk.loc(), str(ex))
@@ -132,9 +165,11 @@ def run(ctx):
     # probes use the 4 attribute names, through the held dir fd
     X = Expander(P, rk)
     attrs = sorted(X(rk.nodes[i]["args"][1]) for i in rk.calls("hasxattrAt"))
+    if table_form:
+        attrs = entries or []
     want = ["kOomdSystemAvoidXAttr", "kOomdSystemPreferXAttr", "kOomdUserAvoidXAttr", "kOomdUserPreferXAttr"]
     ctx.check(len(attrs) == 4 and all(any(w in a for a in attrs) for w in want) and
-              all(X(rk.nodes[i]["args"][0]) == "param:path" for i in rk.calls("hasxattrAt")),
+              all(X(rk.nodes[i]["args"][0]) == "param:path" for i in rk.calls("hasxattrAt")) and bool(rk.calls("hasxattrAt")),
               "readKillPreferenceAt:probes", "provenance", rk.loc(),
               "probes trusted./user. prefer and avoid on the given dir fd", "probes are " + str(attrs))
 
